@@ -1,4 +1,5 @@
 use crate::DbError;
+use crate::DbErrorType;
 use crate::utilities::serialize::Serialize;
 use crate::utilities::serialize::SerializeStatic;
 use std::fs::File;
@@ -77,6 +78,19 @@ impl WriteAheadLog {
     }
 
     fn read_exact(file: &mut File, size: u64) -> Result<Vec<u8>, DbError> {
+        // Validate before allocating: `size` may come from (untrusted) file content.
+        let remaining = file
+            .metadata()?
+            .len()
+            .saturating_sub(file.stream_position()?);
+
+        if remaining < size {
+            return Err(DbError::storage(
+                DbErrorType::NotEnoughData,
+                format!("Invalid WAL record size ({size}) exceeds remaining data ({remaining})"),
+            ));
+        }
+
         let mut buffer = vec![0_u8; size as usize];
         file.read_exact(&mut buffer)?;
 
@@ -96,7 +110,11 @@ impl WriteAheadLog {
     fn skip_record(file: &mut File) -> Result<(), DbError> {
         file.seek(SeekFrom::Current(u64::serialized_size_static() as i64))?;
         let value_size = u64::deserialize(&Self::read_exact(file, u64::serialized_size_static())?)?;
-        file.seek(SeekFrom::Current(value_size as i64))?;
+        // The size comes from the (untrusted) file content. A value that does not
+        // fit `i64` would seek backwards (or overflow) making an invalid record
+        // appear valid.
+        let offset = i64::try_from(value_size)?;
+        file.seek(SeekFrom::Current(offset))?;
         Ok(())
     }
 
